@@ -7,6 +7,9 @@
 //   upd <ne> <nf> <flgH> <nefc> <ncon> {D R floss jar type id}*nefc {dim mu f0..f4}*ncon
 //   jtv <nr> <nc> mat*(nr*nc) vec*nr | dec <dim> pyr.. mu*5 | enc <dim> force*dim mu*5 | pc <ell> <dim> force*dim mu*5
 //   qcqp <dim> <fn> Ac*(dim-1)^2 bc*(dim-1) mu*5      (static solveQCQP; implementation-only op for the oracle)
+//   imp <nefnf> <impratio> <nefc> <ncon> {diagA imp type id}*nefc {dim f0..f4}*ncon
+//        the real mj_makeImpedance on an mjData assembled from the op (flat solimp = imp, so that getimpedance
+//        returns exactly imp; checked on efc_KBIP)  -> R efc_R*nefc | D efc_D*nefc | m {contact.mu|-}*ncon
 // Engine ops (oracle side only; numbers printed with %.17g as one JSON object per line):
 //   model ... end                          build an mjModel through harness/mjbuild.h      -> ok nq nv ngeom | error ..
 //   opt <solver> <cone> <jacobian> <iterations> <tolerance> <impratio> <noslip_iterations>      -> ok
@@ -14,7 +17,10 @@
 //   set <qpos|qvel|act|ctrl|qfrc_applied|xfrc_applied|mocap_pos|mocap_quat> v...           -> ok
 //   reset | step <n>                                                                       -> ok
 //   fwd                                    mj_forward, then dump constraint data           -> {json}
+//   fwdq                                   mj_forward only                                 -> ok <nefc> <ncon>
 //   updline <flgH>                         `upd` op line built from the engine's own efc arrays, jar = J*qacc - aref
+//   impline                                `imp` op line built from the engine's own efc arrays, followed by ` => ` and the
+//                                          efc_R / efc_D / contact.mu that the real mj_makeImpedance(m, d) computes from them
 #include <math.h>
 #include <setjmp.h>
 #include <stdint.h>
@@ -190,6 +196,105 @@ static void op_qcqp(char** tok, int n) {
   put_hexes(force + 1, k); printf("\n");
 }
 
+// ---------------------------------------------------------------- mj_makeImpedance on assembled data
+// The function reads: m->opt.{impratio,timestep,disableflags}, the per-object solref/solimp arrays of the model
+// (for non-contact rows), d->{ne,nf,nefc,efc_type,efc_id,efc_pos,efc_margin,efc_diagA,contact}; it writes
+// efc_R, efc_KBIP, efc_D, efc_diagA, contact.mu.  Every row gets its own model object (id = row index) so that its
+// impedance can be chosen per row; contact rows use the contacts of the op.
+static void put_imp_out(const double* R, const double* D, int nefc, const mjContact* con, int ncon, const unsigned char* written) {
+  printf("R "); put_hexes(R, nefc);
+  printf(" | D "); put_hexes(D, nefc);
+  printf(" | m");
+  for (int c = 0; c < ncon; c++) { printf(" "); if (written[c]) put_hex(con[c].mu); else printf("-"); }
+  printf("\n");
+}
+
+static void op_imp(char** tok, int n) {
+  long nefnf, nefc, ncon; double impratio;
+  if (n < 5 || !parse_nat(tok[1], &nefnf) || !parse_hex(tok[2], &impratio) || !parse_nat(tok[3], &nefc) ||
+      !parse_nat(tok[4], &ncon) || n - 5 != 4 * nefc + 6 * ncon || nefc < nefnf) { printf("bad-op\n"); return; }
+  double* diagA = calloc(nefc + 1, 8); double* imp = calloc(nefc + 1, 8);
+  double* R = calloc(nefc + 2, 8); double* D = calloc(nefc + 2, 8); double* KBIP = calloc(4 * nefc + 4, 8);
+  double* zeros = calloc(nefc + 1, 8);
+  double* solref = calloc(2 * nefc + 2, 8); double* solimp = calloc(5 * nefc + 5, 8);
+  int* type = calloc(nefc + 1, 4); int* id = calloc(nefc + 1, 4); int* eqtype = calloc(nefc + 1, 4);
+  mjContact* con = calloc(ncon + nefc + 1, sizeof(mjContact));
+  unsigned char* written = calloc(ncon + 1, 1); unsigned char* used = calloc(ncon + 1, 1);
+  static mjModel fm; static mjData fd;
+  int bad = 0;
+  char** t = tok + 5;
+  for (long i = 0; i < nefc && !bad; i++, t += 4) {
+    long ty, k;
+    if (!parse_hex(t[0], diagA + i) || !parse_hex(t[1], imp + i) || !parse_nat(t[2], &ty) || !parse_nat(t[3], &k) || ty > 7) bad = 1;
+    else { type[i] = (int)ty; id[i] = (int)k; }
+  }
+  for (long c = 0; c < ncon && !bad; c++, t += 6) {
+    long dim;
+    if (!parse_nat(t[0], &dim)) bad = 1;
+    else {
+      con[c].dim = (int)dim;
+      for (int j = 0; j < 5; j++) if (!parse_hex(t[1 + j], &con[c].friction[j])) bad = 1;
+    }
+  }
+  for (long i = 0; i < nefnf && !bad; i++)
+    if (type[i] == mjCNSTR_CONTACT_PYRAMIDAL || type[i] == mjCNSTR_CONTACT_ELLIPTIC) bad = 1;
+  if (bad) { printf("bad-op\n"); goto done; }
+  // refuse inputs on which the function would index outside the arrays handed to it (or loop forever)
+  for (long i = nefnf; i < nefc; ) {
+    if (type[i] != mjCNSTR_CONTACT_PYRAMIDAL && type[i] != mjCNSTR_CONTACT_ELLIPTIC) { i++; continue; }
+    if (id[i] >= ncon) { printf("oob\n"); goto done; }
+    int dim = con[id[i]].dim;
+    int nrows = type[i] == mjCNSTR_CONTACT_ELLIPTIC ? dim : 2 * (dim - 1);
+    if (dim < 2 || dim > 6 || i + nrows > nefc) { printf("oob\n"); goto done; }
+    // the rows of a block share the contact's impedance: the contact's flat solimp is the imp of the block's first row
+    if (!used[id[i]]) {
+      used[id[i]] = 1;
+      con[id[i]].solimp[0] = con[id[i]].solimp[1] = imp[i];
+      con[id[i]].solimp[2] = 0.001; con[id[i]].solimp[3] = 0.5; con[id[i]].solimp[4] = 2;
+      con[id[i]].solref[0] = 0.02; con[id[i]].solref[1] = 1;
+    }
+    i += nrows;
+  }
+  memset(&fm, 0, sizeof fm); memset(&fd, 0, sizeof fd);
+  fm.opt.impratio = impratio; fm.opt.timestep = 0.002;
+  fm.eq_solref = fm.jnt_solref = fm.dof_solref = fm.tendon_solref_lim = fm.tendon_solref_fri = solref;
+  fm.eq_solimp = fm.jnt_solimp = fm.dof_solimp = fm.tendon_solimp_lim = fm.tendon_solimp_fri = solimp;
+  fm.eq_type = eqtype;
+  for (long i = 0; i < nefc; i++) {
+    eqtype[i] = mjEQ_JOINT;
+    solref[2 * i] = 0.02; solref[2 * i + 1] = 1;
+    solimp[5 * i] = solimp[5 * i + 1] = imp[i]; solimp[5 * i + 2] = 0.001; solimp[5 * i + 3] = 0.5; solimp[5 * i + 4] = 2;
+    R[i] = D[i] = NAN;
+  }
+  int* efc_id = calloc(nefc + 1, 4);
+  for (long i = 0; i < nefc; i++) {
+    if (type[i] == mjCNSTR_CONTACT_PYRAMIDAL || type[i] == mjCNSTR_CONTACT_ELLIPTIC) efc_id[i] = id[i];
+    else if (type[i] == mjCNSTR_CONTACT_FRICTIONLESS) {
+      // a private contact per frictionless row
+      mjContact* c = con + ncon + i;
+      c->dim = 1; c->solimp[0] = c->solimp[1] = imp[i]; c->solimp[2] = 0.001; c->solimp[3] = 0.5; c->solimp[4] = 2;
+      c->solref[0] = 0.02; c->solref[1] = 1;
+      efc_id[i] = (int)(ncon + i);
+    } else efc_id[i] = (int)i;
+  }
+  for (long c = 0; c < ncon; c++) memset(&con[c].mu, 0xff, 8);   // "not written"
+  fd.ne = 0; fd.nf = (int)nefnf; fd.nefc = (int)nefc; fd.ncon = (int)ncon;
+  fd.efc_type = type; fd.efc_id = efc_id; fd.efc_pos = zeros; fd.efc_margin = zeros; fd.efc_diagA = diagA;
+  fd.efc_R = R; fd.efc_D = D; fd.efc_KBIP = KBIP; fd.contact = con;
+  mj_makeImpedance(&fm, &fd);
+  free(efc_id);
+  for (long i = 0; i < nefc; i++)
+    if (memcmp(KBIP + 4 * i + 2, imp + i, 8)) { printf("imp-mismatch row %ld\n", i); goto done; }
+  for (long c = 0; c < ncon; c++) {
+    unsigned char* p = (unsigned char*)&con[c].mu;
+    for (int b = 0; b < 8; b++) if (p[b] != 0xff) written[c] = 1;
+  }
+  put_imp_out(R, D, (int)nefc, con, (int)ncon, written);
+done:
+  free(diagA); free(imp); free(R); free(D); free(KBIP); free(zeros); free(solref); free(solimp);
+  free(type); free(id); free(eqtype); free(con); free(written); free(used);
+}
+
 // ---------------------------------------------------------------- engine ops
 static mjModel* m = NULL;
 static mjSpec* spec = NULL;
@@ -256,6 +361,39 @@ static void op_updline(int flg) {
   free(jar);
 }
 
+// the real mj_makeImpedance(m, d) re-run on the engine's own constraint rows (efc_diagA as mj_forward left it); the
+// arrays it writes are saved and restored, so the state of d is unchanged
+static void op_impline(void) {
+  int nefc = d->nefc, ncon = d->ncon;
+  double* sR = malloc(8 * (nefc + 1)); double* sD = malloc(8 * (nefc + 1)); double* sK = malloc(32 * (nefc + 1));
+  double* sA = malloc(8 * (nefc + 1)); double* smu = malloc(8 * (ncon + 1));
+  unsigned char* written = calloc(ncon + 1, 1);
+  memcpy(sR, d->efc_R, 8 * nefc); memcpy(sD, d->efc_D, 8 * nefc); memcpy(sK, d->efc_KBIP, 32 * nefc);
+  memcpy(sA, d->efc_diagA, 8 * nefc);
+  for (int c = 0; c < ncon; c++) { smu[c] = d->contact[c].mu; memset(&d->contact[c].mu, 0xff, 8); }
+  mj_makeImpedance(m, d);
+  printf("imp %d ", d->ne + d->nf); put_hex(m->opt.impratio); printf(" %d %d", nefc, ncon);
+  for (int i = 0; i < nefc; i++) {
+    int fric = d->efc_type[i] == mjCNSTR_CONTACT_PYRAMIDAL || d->efc_type[i] == mjCNSTR_CONTACT_ELLIPTIC;
+    printf(" "); put_hex(sA[i]); printf(" "); put_hex(d->efc_KBIP[4 * i + 2]);
+    printf(" %d %d", d->efc_type[i], fric ? d->efc_id[i] : 0);
+  }
+  for (int c = 0; c < ncon; c++) {
+    printf(" %d", d->contact[c].dim);
+    for (int j = 0; j < 5; j++) { printf(" "); put_hex(d->contact[c].friction[j]); }
+  }
+  printf(" => ");
+  for (int c = 0; c < ncon; c++) {
+    unsigned char* p = (unsigned char*)&d->contact[c].mu;
+    for (int b = 0; b < 8; b++) if (p[b] != 0xff) written[c] = 1;
+  }
+  put_imp_out(d->efc_R, d->efc_D, nefc, d->contact, ncon, written);
+  memcpy(d->efc_R, sR, 8 * nefc); memcpy(d->efc_D, sD, 8 * nefc); memcpy(d->efc_KBIP, sK, 32 * nefc);
+  memcpy(d->efc_diagA, sA, 8 * nefc);
+  for (int c = 0; c < ncon; c++) d->contact[c].mu = smu[c];
+  free(sR); free(sD); free(sK); free(sA); free(smu); free(written);
+}
+
 typedef struct { const char* name; int which; } SetField;
 
 static void op_set(char** tok, int n) {
@@ -293,6 +431,7 @@ int main(void) {
     else if (!strcmp(op, "enc")) op_dec(tok, n, 1);
     else if (!strcmp(op, "pc")) op_pc(tok, n);
     else if (!strcmp(op, "qcqp")) op_qcqp(tok, n);
+    else if (!strcmp(op, "imp")) op_imp(tok, n);
     else if (!strcmp(op, "model")) {
       if (d) { mj_deleteData(d); d = NULL; }
       if (m) { mj_deleteModel(m); m = NULL; }
@@ -303,7 +442,7 @@ int main(void) {
       if (!m || !d) printf("error %s\n", m ? "makeData" : err);
       else printf("ok %d %d %d\n", (int)m->nq, (int)m->nv, (int)m->ngeom);
     } else if (strcmp(op, "opt") && strcmp(op, "adhesion") && strcmp(op, "set") && strcmp(op, "reset") &&
-               strcmp(op, "step") && strcmp(op, "fwd") && strcmp(op, "updline")) {
+               strcmp(op, "step") && strcmp(op, "fwd") && strcmp(op, "fwdq") && strcmp(op, "updline") && strcmp(op, "impline")) {
       printf("bad-op\n");
     } else if (!m || !d) {
       printf("error no model\n");
@@ -321,7 +460,9 @@ int main(void) {
     else if (!strcmp(op, "reset")) { mj_resetData(m, d); printf("ok\n"); }
     else if (!strcmp(op, "step") && n == 2) { int k = atoi(tok[1]); for (int i = 0; i < k; i++) mj_step(m, d); printf("ok\n"); }
     else if (!strcmp(op, "fwd")) op_fwd();
+    else if (!strcmp(op, "fwdq")) { mj_forward(m, d); printf("ok %d %d\n", d->nefc, d->ncon); }
     else if (!strcmp(op, "updline") && n == 2) op_updline(atoi(tok[1]) ? 1 : 0);
+    else if (!strcmp(op, "impline") && n == 1) op_impline();
     else printf("bad-op\n");
     jb_armed = 0;
     fflush(stdout);
